@@ -4,6 +4,7 @@ import (
 	"encoding/json"
 	"fmt"
 	"os"
+	"strings"
 	"time"
 
 	"stfsmc/engines"
@@ -121,6 +122,9 @@ func runCheck(prop, tier string, seed int64, workers int) int {
 	}
 	if prop == "C10" {
 		return runC10(rep, p, tier)
+	}
+	if prop == "C18" {
+		return runC18(rep, p, tier)
 	}
 	if prop == "C03" {
 		return runC03(rep, p, tier)
@@ -392,5 +396,44 @@ func runC03(rep *engines.Report, p *pool.Pool, tier string) int {
 	if skipped > 0 {
 		rep.Notes = append(rep.Notes, fmt.Sprintf("budget reached: %d of %d configurations not executed", skipped, len(jobs)))
 	}
+	return rep.Finish()
+}
+
+func runC18(rep *engines.Report, p *pool.Pool, tier string) int {
+	rep.Level = "exploration"
+	pws := []string{"", "pässwörd-日本"}
+	pairs := 2
+	if tier != "quick" {
+		pws = []string{"", "a", strings.Repeat("x", 64), "pässwörd-日本", strings.Repeat("k9", 512)}
+	}
+	jobs := []interface{}{}
+	for _, kind := range []string{"enc-age", "enc-pgp", "sig-minisign", "sig-pgp"} {
+		for _, pw := range pws {
+			jobs = append(jobs, &engines.C18Job{Kind: kind, Password: pw, Others: pws, Pairs: pairs})
+		}
+	}
+	evals := 0
+	distinct := map[string]bool{}
+	p.JobTimeout = 20 * time.Minute
+	p.Map("c18", jobs, func(i int, resp *pool.Response) {
+		if resp.Err != "" {
+			rep.Inconclusive++
+			fmt.Fprintf(os.Stderr, "[C18] inconclusive: %s\n", resp.Err)
+			return
+		}
+		var r engines.C18Res
+		_ = json.Unmarshal(resp.Result, &r)
+		evals += r.Evals
+		for _, d := range r.Distinct {
+			distinct[d] = true
+		}
+		rep.Add("c18", jobs[i], r.Viol)
+	})
+	rep.AddSample(map[string]interface{}{"kind": "sig-minisign", "password_class": "multibyte", "wrong_passwords_tried": len(pws) - 1, "pairs": pairs})
+	rep.Coverage["evaluations"] = evals
+	rep.Coverage["distinct_nontrivial"] = len(distinct)
+	rep.Coverage["exhaustive"] = rep.Inconclusive == 0
+	rep.Coverage["rule"] = "complete matrix key kind {enc-age, enc-pgp, sig-minisign, sig-pgp} x password class x {generate+parse both halves, string and stream round trips on 0/5/70000 bytes, altered data, cross-pair rejection with a second independently generated pair, every other password of the list must not open the private half}; distinct_nontrivial = distinct (kind, password class, sub-check) executed. Key material itself is two fresh random samples per cell, not an enumeration."
+	rep.Assumptions = []string{"key material: fresh random pairs per run (not enumerated)", "passwords from classes {empty, 1 char, 64 ASCII, multi-byte, 1 KiB}"}
 	return rep.Finish()
 }
